@@ -284,23 +284,32 @@ fn run_line_here(line: &str) -> String {
     let id = it.next().unwrap_or("");
     let ops: Vec<&str> = it.collect();
     let mut res: Vec<String> = Vec::new();
-    let split = ops.iter().position(|o| *o == "||");
-    let (seq_ops, par_ops): (&[&str], &[&str]) = match split {
-        Some(i) => (&ops[..i], &ops[i + 1..]),
-        None => (&ops[..], &[]),
-    };
-    for o in seq_ops.iter() {
-        if DEAD.load(std::sync::atomic::Ordering::SeqCst) {
-            res.push("SKIP".to_string());
-        } else {
-            res.push(guarded(|| run_op(o)));
+    // sequential ops run on this thread; `||` opens a parallel round (every op up to `;;` or the end of the line runs on its
+    // own thread, released together); `;;` closes the round and the ops after it run sequentially again
+    let mut i = 0;
+    while i < ops.len() {
+        let o = ops[i];
+        if o != "||" {
+            if o == ";;" {
+                res.push(";;".to_string());
+            } else if DEAD.load(std::sync::atomic::Ordering::SeqCst) {
+                res.push("SKIP".to_string());
+            } else {
+                res.push(guarded(|| run_op(o)));
+            }
+            i += 1;
+            continue;
         }
-    }
-    if split.is_some() {
+        let end = ops[i + 1..].iter().position(|x| *x == ";;").map(|k| i + 1 + k).unwrap_or(ops.len());
+        let par_ops = &ops[i + 1..end];
+        i = end;
         res.push("||".to_string());
+        if DEAD.load(std::sync::atomic::Ordering::SeqCst) {
+            for _ in par_ops { res.push("SKIP".to_string()); }
+            continue;
+        }
         hist::PARALLEL.store(true, std::sync::atomic::Ordering::SeqCst);
-        // every op after `||` runs on its own thread, released together
-        let barrier = Arc::new(std::sync::Barrier::new(par_ops.len()));
+        let barrier = Arc::new(std::sync::Barrier::new(par_ops.len().max(1)));
         // each thread reports over a channel; a thread that has not reported when the watchdog expires is stuck
         // (two calls waiting for each other's lock): its result is DEADLOCK and the process ends after this line
         let mut chans = Vec::new();
